@@ -15,6 +15,9 @@ ASSUMPTIONS = [
     'remove_labels: the rnd.sample index list is read off the implementation (labels that became -1) and validated by the model; '
     'split_one_vs_others (float labels) is judged by implementation-side predicates only and its results are not kept',
     'non-integer labels (only produced by split_one_vs_others) and labels < -1 (rejected by the constructor) are outside the envelope',
+    'object identity: the model is a function of values; every ndarray handed to a constructor or an operation is compared with a snapshot after '
+    'every operation (argument-mutated) and all live data sets are re-snapshotted after every operation (operation-changes-other-dataset); '
+    'float32 constructor arrays are only driven through operations that are exact in single precision (no scale_range)',
     'floats modelled as exact rationals; implementation values are compared exactly and, where float rounding occurred, '
     'within 1e-9*(1+|v|) (counted as "rounded" in the histogram)',
     'value-semantics model: numpy array sharing between derived data sets is not modelled; the harness detects an '
@@ -105,6 +108,58 @@ def big_ops(rng, inits):
     return ops
 
 
+def gen_shared_case(rng, tier):
+    """several DataSets built from ONE ndarray object / from views of one parent array; operations interleaved on them"""
+    return dict(seed=rng.randrange(1 << 30), nops=rng.choice([4, 6, 9, 12]), kind='shared', shared=1)
+
+
+def gen_shared_inits(rng):
+    """initial sets [X, y, spec] whose spec['share'] says from which parent array (values, dtype, memory order) and through which
+    row/column selection the constructor argument is taken; the label array is its own object or the one of an earlier set"""
+    dtype = rng.choice(['float64', 'float64', 'float64', 'float32', 'int64'])
+    order = rng.choice(['C', 'C', 'F'])
+    d = rng.choice([1, 2, 2, 3])
+    D = d + rng.choice([0, 0, 1, 2])                       # parent columns (a column slice is a non-contiguous view)
+    N = rng.randrange(6, 33)
+    step = 1.0 if dtype == 'int64' else 8.0
+    cols = []
+    for j in range(D):
+        r = rng.random()
+        pool = [rng.randrange(-16, 17) / step] if r < 0.1 else [rng.randrange(-16, 17) / step for _ in range(rng.randrange(2, 5))] if r < 0.5 \
+            else [k / step for k in range(-32, 33)]
+        cols.append([rng.choice(pool) for _ in range(N)])
+    P = [[cols[j][i] for j in range(D)] for i in range(N)]
+    lk = rng.choice(['0..k', 'mixed', 'noncontig', 'unlabelled'])
+    pool = LABEL_POOLS[lk]
+    inits = []
+    nsets = rng.choice([2, 2, 3, 4])
+    c0 = rng.randrange(0, D - d + 1)
+    for si in range(nsets):
+        mode = rng.choice(['same', 'same', 'rows', 'rows', 'step', 'overlap']) if si else 'same'
+        if mode == 'same':
+            a, b, st = 0, N, 1
+        elif mode == 'step':
+            a, b, st = rng.randrange(0, 2), N, 2
+        else:
+            a = rng.randrange(0, N - 2)
+            b = rng.randrange(a + 2, N + 1)
+            st = 1
+        rows = list(range(a, b, st))
+        X = [[float(P[i][c0 + j]) for j in range(d)] for i in rows]
+        lab = 'own'
+        same_len = [k for k, it in enumerate(inits) if len(it[0]) == len(X)]
+        if same_len and rng.random() < 0.35:
+            lab = same_len[0]
+            y = list(inits[lab][1])
+        else:
+            y = [rng.choice(pool) for _ in rows]
+        share = dict(dtype=dtype, order=order, rows=[a, b, st], cols=[c0, c0 + d], lab=lab, mode=mode)
+        if si == 0:
+            share['parent'] = P
+        inits.append([X, y, dict(ctor='shared', labels=lk, values='int' if dtype == 'int64' else 'lattice', share=share)])
+    return inits
+
+
 def size_bucket(n):
     return '0' if n == 0 else '1' if n == 1 else '2-12' if n <= 12 else '13-40' if n <= 40 else '41-300' if n <= 300 else '>1000' if n > 1000 else '301-1000'
 
@@ -163,7 +218,11 @@ def gen_inits(rng, big=None):
     return inits
 
 
-def choose_op(rng, info, last=None):
+FACTORS_EXACT = [2.0, 0.5, -2.0, -1.0, 4.0, 0.25, 1.0, 8.0]
+SHIFTS_EXACT = [1.0, -1.0, 0.5, 0.125, -3.0, 0.0, 2.0, -0.25]
+
+
+def choose_op(rng, info, last=None, exact=False):
     """info: list of (n, d, scaled) per live handle; last: the previous operation (histories on ONE object: the next operation goes to the
     same or to a freshly derived data set with a good share, and sometimes repeats the previous call verbatim)."""
     live = list(range(len(info)))
@@ -186,11 +245,13 @@ def choose_op(rng, info, last=None):
             continue
         if k == 'revert' and not scaled and rng.random() < 0.85:
             continue
+        if exact and k == 'scale_range':
+            continue                                            # float32 samples: only operations that are exact in single precision
         if k == 'scale_range':
             lo, hi = rng.choice(BAD_RANGES) if rng.random() < 0.04 else rng.choice(RANGES)
             return [k, h, lo, hi, int(rng.random() < 0.25)]
         if k in ('scale_factor', 'shift_value'):
-            pool = FACTORS if k == 'scale_factor' else SHIFTS
+            pool = (FACTORS_EXACT if exact else FACTORS) if k == 'scale_factor' else (SHIFTS_EXACT if exact else SHIFTS)
             ov = int(rng.random() < 0.2)
             if rng.random() < 0.3 and d >= 1:
                 ln = d
@@ -288,6 +349,52 @@ def build(spec_init):
     return DataSet((A, L))
 
 
+def build_all(inits):
+    """DataSets of all initial-set descriptions + the list of every ndarray object handed to a constructor (name, array)"""
+    import numpy as np
+    from sparseSpACE.DEMachineLearning import DataSet
+    H, args, parent, labs = [], [], None, []
+    for k, it in enumerate(inits):
+        X, y = it[0], it[1]
+        spec = it[2] if len(it) > 2 else {}
+        sh = spec.get('share')
+        if sh is None:
+            ctor = spec.get('ctor', 'tuple')
+            if len(X) == 0:
+                H.append(DataSet((np.array([]), np.array([], dtype=np.int64))))
+                labs.append(None)
+                continue
+            A = np.array(X, dtype=np.float64).reshape(len(X), len(X[0]))
+            L = np.array(y, dtype=np.int64)
+            if ctor == 'flat1d':
+                A = A.reshape(len(X))
+            elif ctor == 'intsamples':
+                A = A.astype(np.int64)
+            elif ctor == 'floatlabels':
+                L = L.astype(np.float64)
+            args.append(('constructor-samples', A))
+            if ctor == 'ndarray':
+                H.append(DataSet(A))                        # samples only: all labels -1
+            else:
+                args.append(('constructor-labels', L))
+                H.append(DataSet((A, L)))
+            labs.append(L)
+            continue
+        if 'parent' in sh:
+            parent = np.array(sh['parent'], dtype=np.dtype(sh['dtype']), order=sh['order'])
+            args.append(('constructor-parent', parent))
+        a, b, st = sh['rows']
+        V = parent[a:b:st, sh['cols'][0]:sh['cols'][1]]
+        if sh['lab'] == 'own':
+            L = np.array(y, dtype=np.int64)
+            args.append(('constructor-labels', L))
+        else:
+            L = labs[sh['lab']]
+        labs.append(L)
+        H.append(DataSet((V, L)))
+    return H, args
+
+
 def pairs(s):
     return sorted((tuple(r), l) for r, l in zip(s[0], s[1]))
 
@@ -358,8 +465,10 @@ def impl_run(case):
     pyrandom.seed(case['seed'])
     inits = case.get('inits')
     if inits is None:
-        inits = gen_inits(rng, case.get('big'))
-    H = [build(it) for it in inits]
+        inits = gen_shared_inits(rng) if case.get('shared') else gen_inits(rng, case.get('big'))
+    H, args = build_all(inits)
+    args = [(nm, a, a.copy()) for nm, a in args]   # every array handed to the library, with its content at hand-over
+    exact = any((it[2] if len(it) > 2 else {}).get('share', {}).get('dtype') == 'float32' for it in inits)
     snap = snapo                                   # all snapshots of this run carry the offset field
     has_off = hasattr(DataSet, 'get_scaling_offset')
     last = None
@@ -396,7 +505,7 @@ def impl_run(case):
 
     for step in range(nops):
         info = [(len(s[0]), s[2], s[SC]) for s in S]
-        op = list(fixed[step]) if fixed is not None else choose_op(rng, info, last)
+        op = list(fixed[step]) if fixed is not None else choose_op(rng, info, last, exact)
         last = op
         k, h = op[0], op[1]
         if h >= len(H) or (k in ('concatenate', 'same_scaling') and op[2] >= len(H)):
@@ -406,7 +515,12 @@ def impl_run(case):
             stop = 'near-tie'
             break
         Sb = [s for s in S]                        # snapshots before the operation
+        Db = [x.get_data() for x in H]             # the arrays the data sets hold before the operation (memory sharing)
         d = H[h]
+        oparg = None
+        if k in ('scale_factor', 'shift_value') and isinstance(op[2], list):
+            oparg = np.array(op[2], dtype=np.float64)
+            args.append(('operation-argument', oparg, oparg.copy()))
         ent = dict(op=op, viol=[], resync=[])
         exc = None
         out = None
@@ -415,9 +529,9 @@ def impl_run(case):
             if k == 'scale_range':
                 d.scale_range((op[2], op[3]), **(dict(override_scaling=True) if op[4] else {}))
             elif k == 'scale_factor':
-                d.scale_factor(np.array(op[2], dtype=np.float64) if isinstance(op[2], list) else op[2], **(dict(override_scaling=True) if op[3] else {}))
+                d.scale_factor(oparg if oparg is not None else op[2], **(dict(override_scaling=True) if op[3] else {}))
             elif k == 'shift_value':
-                d.shift_value(np.array(op[2], dtype=np.float64) if isinstance(op[2], list) else op[2], **(dict(override_scaling=True) if op[3] else {}))
+                d.shift_value(oparg if oparg is not None else op[2], **(dict(override_scaling=True) if op[3] else {}))
             elif k == 'revert':
                 d.revert_scaling()
             elif k == 'shuffle':
@@ -471,13 +585,25 @@ def impl_run(case):
         for i in changed:
             if i not in allowed:
                 what = [nm for nm, a, b in zip(FIELDS, Sb[i], S2[i]) if a != b]
+                shared = int(any(np.shares_memory(x, y) for x, y in zip(Db[i], Db[h])))
                 ent['viol'].append(dict(kind='operation-changes-other-dataset',
-                                        sig=dict(op=k, changed=','.join(what), target_is_source=int(i == h)),
-                                        why='%s on data set %d changed %s of data set %d' % (k, h, what, i)))
+                                        sig=dict(op=k, changed=','.join(what), target_is_source=int(i == h), shared_memory=shared),
+                                        why='%s on data set %d changed %s of data set %d%s' % (
+                                            k, h, what, i, ' (the two hold views of the same array)' if shared else '')))
                 ent['resync'].append([i, S2[i]])
                 flags[i]['taint'] = True
-                if ref[i] is not None and len(ref[i]) != len(S2[i][0]):
-                    ref[i] = None
+                if ref[i] is not None:
+                    cr = ref[i]
+                    ref[i] = None if len(cr) != len(Sb[i][0]) else match_refs(
+                        [(tuple(r), 0) for r in S2[i][0]], [((tuple(r), 0), cr[j]) for j, r in enumerate(Sb[i][0])])
+        # ---- argument immutability: no operation may write into an array the caller handed over (constructor or operation argument)
+        mut = [ai for ai, (nm, arr, cp) in enumerate(args) if arr.shape != cp.shape or not np.array_equal(arr, cp)]
+        if mut:
+            nm, arr, cp = args[mut[0]]
+            ent['viol'].append(dict(kind='argument-mutated', sig=dict(op=k, arg=','.join(sorted(set(args[ai][0] for ai in mut)))),
+                                    why='%s on data set %d wrote into the caller\'s %s array (%s %s)' % (k, h, nm, arr.dtype, arr.shape)))
+            for ai in mut:
+                args[ai] = (args[ai][0], args[ai][1], args[ai][1].copy())
         sb, sa = Sb[h], S[h]
         # ---- observation + oracle per operation
         if k in ('scale_range', 'scale_factor', 'shift_value', 'revert'):
@@ -491,7 +617,7 @@ def impl_run(case):
             else:
                 if sa[1] != sb[1] or len(sa[0]) != len(sb[0]):
                     ent['viol'].append(dict(kind='scaling-changes-labels', sig=dict(op=k), why='labels or sample count changed by ' + k))
-                if k == 'scale_range':
+                if k == 'scale_range' and sb[0] and len(sa[0]) == len(sb[0]):
                     lo, hi = float(op[2]), float(op[3])
                     for j in range(len(sb[0][0])):
                         cb = [r[j] for r in sb[0]]
@@ -901,6 +1027,17 @@ CORPUS = [
          ops=[['shift_value', 0, 0.0, 0], ['shift_value', 1, 0.0, 0], ['same_scaling', 0, 1], ['same_scaling', 1, 0],
               ['scale_factor', 2, [1.0, 1.0, 1.0, 1.0], 0], ['scale_factor', 3, [1.0, 1.0, 1.0, 2.0], 0], ['scale_factor', 3, [1.0, 1.0, 1.0, 0.5], 0],
               ['same_scaling', 2, 3], ['same_scaling', 2, 2]]),
+    # two data sets built from ONE sample array (own label arrays): each has to behave as if built from a private copy
+    dict(seed=13, kind='corpus', name='shared-constructor-array',
+         inits=[[[[1.0, 5.0], [0.0, 2.0], [3.0, 1.0], [2.0, 9.0]], [0, 1, 2, 3],
+                 dict(ctor='shared', labels='corpus', values='corpus',
+                      share=dict(dtype='float64', order='C', rows=[0, 4, 1], cols=[0, 2], lab='own', mode='same',
+                                 parent=[[1.0, 5.0], [0.0, 2.0], [3.0, 1.0], [2.0, 9.0]]))],
+                [[[1.0, 5.0], [0.0, 2.0], [3.0, 1.0], [2.0, 9.0]], [0, 1, 2, 3],
+                 dict(ctor='shared', labels='corpus', values='corpus',
+                      share=dict(dtype='float64', order='C', rows=[0, 4, 1], cols=[0, 2], lab='own', mode='same'))]],
+         ops=[['scale_factor', 0, 2.0, 0], ['getters', 1], ['shift_value', 1, [1.0, 0.5], 0], ['scale_factor', 1, [2.0, 4.0], 0], ['revert', 0],
+              ['revert', 1], ['mbf', 0], ['getters', 1]]),
     dict(seed=10, kind='corpus', name='near-constant-column', no_guard=True,
          inits=[[[[1.0, 0.0], [1.0000000000000002, 1.0]], [0, 1]]],
          ops=[['scale_factor', 0, 1.0, 0], ['scale_range', 0, 0, 1, 0]]),
@@ -918,7 +1055,9 @@ def run(chk):
             import sparseSpACE.DEMachineLearning  # noqa: F401
     except Exception:
         pass
-    cases = [dict(c) for c in CORPUS] + [gen_big_case(chk.rng, chk.tier) for _ in range(nbig)] + [gen_case(chk.rng, chk.tier) for _ in range(n)]
+    nsh = chk.n(500, 5000)
+    cases = [dict(c) for c in CORPUS] + [gen_big_case(chk.rng, chk.tier) for _ in range(nbig)] + [gen_shared_case(chk.rng, chk.tier) for _ in range(nsh)] \
+        + [gen_case(chk.rng, chk.tier) for _ in range(n)]
     impl = run_impl(impl_run, cases, limit=240)
     judge(chk, cases, impl, get_variant(chk))
 
@@ -991,6 +1130,12 @@ def judge(chk, cases, impl, variant):
             chk.count('ctor=%s' % sp.get('ctor', 'tuple'))
             chk.count('labels=%s' % sp.get('labels', 'corpus'))
             chk.count('values=%s' % sp.get('values', 'corpus'))
+            if sp.get('share'):
+                sh = sp['share']
+                chk.count('shared:mode=%s' % sh['mode'])
+                chk.count('shared:dtype=%s/order=%s' % (sh['dtype'], sh['order']))
+                chk.count('shared:labels=%s' % ('own' if sh['lab'] == 'own' else 'same-object'))
+                chk.count('shared:%s' % ('column-slice' if 'parent' in sh and len(sh['parent'][0]) != sh['cols'][1] - sh['cols'][0] else 'all-columns') if 'parent' in sh else 'shared:view')
             if s[0]:
                 chk.count('d=%d' % len(s[0][0]))
         # oracle verdicts (implementation alone)
